@@ -792,11 +792,61 @@ class Normaliser:
             return False
         return ok(K)
 
+    # ---- path splitting on a repeated test of never-assigned parameters --------------------------------------------------
+    def split_paths(self, node):
+        """if c: A else: B ; S... ; if c: C else: D ; T...   ->   if c: A; S...; C; T...  else: B; S...; D; T...
+        when c only reads parameters that the function never assigns (so c has the same value at both tests).  Analyses that join
+        at the end of the first `if` then keep the two cases apart (e.g. `axes = None if attrs is None else lookup`)."""
+        params = {a.arg for a in node.args.args + node.args.kwonlyargs}
+        assigned = set()
+        for n in ast.walk(node):
+            if isinstance(n, ast.Name) and isinstance(n.ctx, (ast.Store, ast.Del)):
+                assigned.add(n.id)
+        stable = params - assigned
+
+        def pure_param_test(t):
+            names = {x.id for x in ast.walk(t) if isinstance(x, ast.Name)}
+            return bool(names) and names <= stable and not any(isinstance(x, ast.Call) for x in ast.walk(t))
+
+        def specialise(stmts, text, truth):
+            out = []
+            for st in stmts:
+                if isinstance(st, ast.If) and U(st.test) == text:
+                    out.extend(specialise(st.body if truth else st.orelse, text, truth))
+                elif isinstance(st, ast.If) and isinstance(st.test, ast.UnaryOp) and isinstance(st.test.op, ast.Not) and U(st.test.operand) == text:
+                    out.extend(specialise(st.orelse if truth else st.body, text, truth))
+                else:
+                    out.append(st)
+            return out
+
+        def process(body):
+            for i, st in enumerate(body):
+                if isinstance(st, ast.If) and pure_param_test(st.test) and i + 1 < len(body):
+                    text = U(st.test)
+                    rest = body[i + 1:]
+                    again = any(isinstance(r, ast.If) and (U(r.test) == text or (isinstance(r.test, ast.UnaryOp) and isinstance(r.test.op, ast.Not)
+                                                                                 and U(r.test.operand) == text)) for r in rest)
+                    ends = lambda blk: bool(blk) and isinstance(blk[-1], (ast.Return, ast.Raise, ast.Continue, ast.Break))
+                    if again and not ends(st.body) and not ends(st.orelse):
+                        st.body = list(st.body) + specialise(clone(rest), text, True)
+                        st.orelse = list(st.orelse) + specialise(clone(rest), text, False)
+                        del body[i + 1:]
+                        process(st.body)
+                        process(st.orelse)
+                        return
+            for st in body:
+                for fld in ('body', 'orelse'):
+                    sub = getattr(st, fld, None)
+                    if isinstance(sub, list) and sub and isinstance(st, (ast.If, ast.For, ast.While)):
+                        process(sub)
+        process(node.body)
+
     def run(self):
         node = clone(self.fi.node)
         self.memo_issues = []
         self.dememoise(node)
         node.body = self.block(node.body, {}, (self.fi.qualname,))
+        self.split_paths(node)
         ast.fix_missing_locations(node)
         for n in ast.walk(node):
             for ch in ast.iter_child_nodes(n):
